@@ -78,6 +78,10 @@ func getDescription(raw interface{}) string {
 	case ast.DescribableNode:
 		if sval := node.GetDescription(); sval != nil {
 			desc = sval.Value
+			if desc == "" {
+				// an empty description is still a description
+				return `""`
+			}
 		}
 	case map[string]interface{}:
 		desc = getMapValueString(node, "Description.Value")
